@@ -4,6 +4,7 @@ import (
 	"github.com/spf13/cobra"
 	"grog/internal/config"
 	"grog/internal/console"
+	"grog/internal/locking"
 	"os"
 )
 
@@ -18,7 +19,17 @@ By default, only the workspace-specific cache is cleaned. Use the --expunge flag
   grog clean --expunge   # Clean the entire grog cache`,
 	Args: cobra.NoArgs,
 	Run: func(cmd *cobra.Command, args []string) {
-		_, logger := console.SetupCommand()
+		ctx, logger := console.SetupCommand()
+
+		// A running build holds the workspace lock and works on the directory that is about to be
+		// removed (the lock file lives in it, too): wait for it like another build would
+		if !config.Global.SkipWorkspaceLock {
+			locker := locking.NewWorkspaceLocker()
+			if err := locker.Lock(ctx); err != nil {
+				logger.Fatalf("could not acquire workspace lock: %v", err)
+			}
+			defer locker.Unlock()
+		}
 
 		var dirToClear string
 		if expunge {
